@@ -644,7 +644,8 @@ impl Prop for C16Prop {
                 // the pieces joined by the separator give back the text; a piece followed by the
                 // separator ends at the FIRST match in (piece ++ separator)
                 let mut good = items.join(&args[1]) == args[0] && !items.is_empty();
-                if !args[1].is_empty() {
+                // (an EMPTY piece list is a wrong answer, not something to index into)
+                if !args[1].is_empty() && !items.is_empty() {
                     for p in &items[..items.len() - 1] {
                         let ps = [p.as_bytes(), a(1)].concat();
                         good = good && naive_find(&ps, a(1)) == Some(p.len());
